@@ -44,14 +44,17 @@ def one(name):
             return res
         t0 = time.time()
         log = f"/tmp/tst_{name}.log"
-        sh(f"nice -n 5 /venv/bin/python -m pytest -q -p no:cacheprovider --timeout=900 -rfE pynenc_tests > {log} 2>&1", cwd=wt, timeout=5400,
-           env={"PYTHONPATH": wt})
+        if os.environ.get("RELOG") and os.path.exists(log):
+            pass
+        else:
+            sh(f"nice -n 5 /venv/bin/python -m pytest -q -p no:cacheprovider --timeout=900 -rfE pynenc_tests > {log} 2>&1", cwd=wt, timeout=5400,
+               env={"PYTHONPATH": wt})
         kill_orphans(wt)
         text = open(log, errors="replace").read()
         m = re.findall(r"=+ (.*(?:passed|failed|error).*) in [\d.]+s", text)
         res["summary"] = m[-1] if m else "no summary (run aborted?)"
         res["wall_s"] = round(time.time() - t0)
-        failed = sorted(set(re.findall(r"^(?:FAILED|ERROR) (.+?)(?: - .*)?$", text, re.M)))
+        failed = sorted(set(re.findall(r"^(?:FAILED|ERROR) (pynenc_tests/\S+?::.+?)(?: - .*)?$", text, re.M)))
         res["failed_in_full_run"] = failed
         still = []
         for t in failed:
